@@ -1,4 +1,5 @@
 import Pycoin.Model.TxCheck
+import Pycoin.Model.CoinbaseTx
 import Pycoin.Proofs.History
 /-!
 C20 — Context-free transaction checks accept exactly the well-formed transactions.
@@ -478,5 +479,46 @@ example : NoDefect .btc txOk := by
   · intro _ t ht
     simp [txOk] at ht
     rcases ht with rfl | rfl <;> simp [IsNull, h11, zero32]
+
+
+/-! ## `Tx.coinbase_tx`: the constructed coinbase passes exactly when its script length and amount allow -/
+
+/-- the word `OP_CHECKSIG` compiles to the byte the generated opcode table assigns (0xac) -/
+theorem opChecksig_eq : opChecksig = [172] := by decide +kernel
+
+/-- C20.coinbase_tx: the transaction `Tx.coinbase_tx` builds is a coinbase (one input, the exact null outpoint), is
+never counted as having unsigned inputs, pays the whole amount to `<sec> OP_CHECKSIG`, and passes `check()` exactly when
+the coinbase script has 2..100 bytes and the amount is within 0..MAX_MONEY (its serialisation being within the size limit) -/
+theorem C20_coinbase_tx (c : Coin) (sec : Bytes) (v : Int) (cb : Bytes) (ver lt : Int) (solutionOk : Nat → Bool)
+    (b : Bytes) (hb : (coinbaseTx sec v cb ver lt).asBin = .ok b) (hsz : b.length ≤ c.maxTxSize) :
+    IsCoinbase (coinbaseTx sec v cb ver lt) ∧ badSolutionCount (coinbaseTx sec v cb ver lt) solutionOk = 0 ∧
+    (coinbaseTx sec v cb ver lt).outs = [⟨v, UInt8.ofNat sec.length :: sec ++ [172]⟩] ∧
+    (check c (coinbaseTx sec v cb ver lt) [0] = .ok () ↔
+      2 ≤ cb.length ∧ cb.length ≤ 100 ∧ 0 ≤ v ∧ v ≤ c.maxMoney) := by
+  have hcb : IsCoinbase (coinbaseTx sec v cb ver lt) :=
+    ⟨coinbaseTxIn cb, rfl, by simp [IsNull, coinbaseTxIn]⟩
+  refine ⟨hcb, C20_coinbase_not_unsigned _ solutionOk hcb, by simp [coinbaseTx, payToSecScript, opChecksig_eq], ?_⟩
+  rw [check_ok_iff, checkTxsIn_ok]
+  have h1 : checkInoutCount (coinbaseTx sec v cb ver lt) = .ok () := by
+    simp [checkInoutCount, coinbaseTx]
+  have h4 : checkSizeLimit c (coinbaseTx sec v cb ver lt) = .ok () := by
+    have : ¬ b.length > c.maxTxSize := by omega
+    simp [checkSizeLimit, hb, this]
+  have h2 : checkTxsOut c (coinbaseTx sec v cb ver lt) = .ok () ↔ 0 ≤ v ∧ v ≤ c.maxMoney := by
+    simp only [checkTxsOut, coinbaseTx, checkTxsOutGo]
+    by_cases hv : v < 0 ∨ v > (c.maxMoney : Int)
+    · simp only [hv, if_true]
+      constructor
+      · intro h; cases h
+      · intro h; omega
+    · have : ¬ (0 + v > (c.maxMoney : Int)) := by omega
+      simp only [hv, if_false, this, true_iff]
+      omega
+  simp only [h1, h4, h2, true_and, and_true, hcb, not_true_eq_false, false_and, or_false]
+  have hnd : ([0] : List Nat).Nodup := by decide
+  simp only [coinbaseTx, coinbaseTxIn, List.mem_singleton, forall_eq, hnd, true_and]
+  constructor
+  · rintro ⟨⟨a, b⟩, c, d⟩; exact ⟨c, d, a, b⟩
+  · rintro ⟨a, b, c, d⟩; exact ⟨⟨c, d⟩, a, b⟩
 
 end Pycoin.TxCheck
